@@ -613,6 +613,16 @@ func init() {
 		}
 		return -1
 	}
+	// verifBunArgN(method, i, j): the j-th variadic argument of the i-th recorded call
+	H["verifBunArgN"] = func(fr *frame, a []value) value {
+		if c := bunNth(strArg(a[0]), int(asInt64(a[1]))); c != nil && len(c.args) > 1 {
+			j := int(asInt64(a[2]))
+			if vs, ok := c.args[1].([]value); ok && j < len(vs) {
+				return vs[j]
+			}
+		}
+		return iface{}
+	}
 	H["verifBunArg"] = func(fr *frame, a []value) value {
 		if c := bunNth(strArg(a[0]), int(asInt64(a[1]))); c != nil && len(c.args) > 1 {
 			if vs, ok := c.args[1].([]value); ok && len(vs) > 0 {
@@ -645,6 +655,7 @@ func init() {
 		intrinsics[recv+".NewUpdate"] = newQuery("UpdateQuery")
 		intrinsics[recv+".NewRaw"] = func(fr *frame, a []value) value {
 			bunLastRaw = a[1]
+			bunCalls = append(bunCalls, bunCall{"NewRaw", append([]value(nil), a[1:]...)})
 			return newCell(fr.i.namedType("github.com/uptrace/bun", "RawQuery"))
 		}
 		intrinsics[recv+".NewSelect"] = newQuery("SelectQuery")
